@@ -13,6 +13,7 @@ import (
 	"github.com/goghcrow/yae/trans"
 	"github.com/goghcrow/yae/types"
 	"github.com/goghcrow/yae/val"
+	"github.com/goghcrow/yae/verifhook"
 	"github.com/goghcrow/yae/vm"
 
 	"verif/mc/gen"
@@ -75,6 +76,12 @@ func stdHost(trace bool) *Host {
 	logf := func(f string, a ...interface{}) {
 		if trace {
 			*h.Trace = append(*h.Trace, fmt.Sprintf(f, a...))
+		} else {
+			// quiet hosts serve the concurrency scenarios: entering a host function is a scheduling
+			// point of the controlled scheduler (inert outside it), so interleavings INSIDE an
+			// evaluation are explored at host-call boundaries
+			// (a fresh object every time: a pure yield that orders nothing in the race detector)
+			verifhook.Atomic(new(int), "host-function")
 		}
 	}
 	a := types.TyVar("a")
@@ -236,6 +243,14 @@ func (h *Host) EnvFuns() map[string]*ref.V {
 		logf("h2(%s,%s)", describeReal(x[0]), describeReal(x[1]))
 		return val.Num(x[0].Num().V*10 + x[1].Num().V)
 	}))
+	// lzns: lazy (num, str) -> num, runs and returns its first operand (parameters of different types)
+	add(&ref.Sig{Name: "lzns", Params: []*gen.Ty{N, gen.Str}, Ret: N, Lazy: true, LazyImpl: func(ev *ref.Eval, t []ref.Thunk) (*ref.V, *ref.Fail) {
+		ev.Trace = append(ev.Trace, "lzns")
+		return t[0]()
+	}}, val.LazyFun(types.Fun("lzns", []*types.Type{types.Num, types.Str}, types.Num), func(x ...*val.Val) *val.Val {
+		logf("lzns")
+		return x[0].Fun().Call()
+	}))
 	// lz1: lazy, runs its FIRST operand only; lzif: a lazy user conditional (bool, num, num)
 	add(&ref.Sig{Name: "lz1", Params: []*gen.Ty{N, N}, Ret: N, Lazy: true, LazyImpl: func(ev *ref.Eval, t []ref.Thunk) (*ref.V, *ref.Fail) {
 		ev.Trace = append(ev.Trace, "lz1")
@@ -350,6 +365,22 @@ func RunGo(b Backend, src string, env interface{}) (o *Obs) {
 	}
 	o.Invoke(c, env, nil)
 	return
+}
+
+// RuntimeEnv: a value environment for closures obtained from Expr.CompileExpr, which (unlike a
+// Callable) are not handed the engine's function table: the host functions and the built-ins are
+// registered in it (the AST interpreter looks functions up at run time).
+func RuntimeEnv(h *Host, spec EnvSpec) *val.Env {
+	ve := spec.RawValEnv()
+	if h != nil {
+		for _, f := range h.Vals {
+			ve.RegisterFun(f)
+		}
+	}
+	for _, f := range fun.BuiltIn() {
+		ve.RegisterFun(f)
+	}
+	return ve
 }
 
 // RunOn compiles src on a given engine against env and invokes it with callEnv.
